@@ -725,6 +725,15 @@ def _as_expression(stmts):
             return None
         return ast.IfExp(test=st.test, body=a, orelse=b)
     if isinstance(st, ast.For) and not st.orelse and len(stmts) == 2 and isinstance(stmts[1], ast.Return) \
+            and isinstance(stmts[1].value, ast.Constant) and stmts[1].value.value is None and isinstance(st.target, ast.Name) \
+            and len(st.body) == 1 and isinstance(st.body[0], ast.If) and not st.body[0].orelse \
+            and len(st.body[0].body) == 1 and isinstance(st.body[0].body[0], ast.Return) \
+            and isinstance(st.body[0].body[0].value, ast.Name) and st.body[0].body[0].value.id == st.target.id:
+        # find-first loop: `for x in it: if c: return x` / `return None`  ==  next((x for x in it if c), None)
+        gen = ast.GeneratorExp(elt=ast.Name(id=st.target.id, ctx=ast.Load()),
+                               generators=[ast.comprehension(target=st.target, iter=st.iter, ifs=[st.body[0].test], is_async=0)])
+        return ast.Call(func=ast.Name(id="next", ctx=ast.Load()), args=[gen, ast.Constant(value=None)], keywords=[])
+    if isinstance(st, ast.For) and not st.orelse and len(stmts) == 2 and isinstance(stmts[1], ast.Return) \
             and isinstance(stmts[1].value, ast.Constant) and isinstance(stmts[1].value.value, bool) \
             and len(st.body) == 1 and isinstance(st.body[0], ast.If) and not st.body[0].orelse \
             and len(st.body[0].body) == 1 and isinstance(st.body[0].body[0], ast.Return) \
